@@ -57,23 +57,23 @@ Definition split_line (d : dlm) (line : list N) : list (list N) :=
   end.
 
 (* ---- inspect_data_section: the sniffed column count (None = "-1") and recommended subs ----- *)
-Fixpoint inspect_loop (body : list (list N)) (i : nat) (subs : list rsub)
+Fixpoint inspect_loop (d : dlm) (body : list (list N)) (i : nat) (subs : list rsub)
          (hyph : nat) (counts : list nat) : nat * list nat :=
   match body with
   | [] => (hyph, rev counts)
   | raw :: rest =>
       let line := strip raw in
       match line with
-      | [] => inspect_loop rest (S i) subs hyph counts
+      | [] => inspect_loop d rest (S i) subs hyph counts
       | _ =>
           let hyph' := if in_str ch_minus line then S hyph else hyph in
-          if startswith [ch_hash] line then inspect_loop rest (S i) subs hyph' counts
+          if startswith [ch_hash] line then inspect_loop d rest (S i) subs hyph' counts
           else
-            let n := List.length (re_findall_joined rx_sow (apply_subs subs line)) in
+            let n := List.length (split_line d (apply_subs subs line)) in
             let counts' := n :: counts in
             match rest with
             | [] => (hyph', rev counts')              (* line_no == last line of the section *)
-            | _ => if Nat.leb 20 i then (hyph', rev counts') else inspect_loop rest (S i) subs hyph' counts'
+            | _ => if Nat.leb 20 i then (hyph', rev counts') else inspect_loop d rest (S i) subs hyph' counts'
             end
       end
   end.
@@ -84,8 +84,8 @@ Definition all_equal (l : list nat) : option nat :=
   | x :: l' => if forallb (Nat.eqb x) l' then Some x else None
   end.
 
-Definition inspect (body : list (list N)) (subs : list rsub) : option nat * list rsub :=
-  let (hyph, counts) := inspect_loop body 0%nat subs 0%nat [] in
+Definition inspect (d : dlm) (body : list (list N)) (subs : list rsub) : option nat * list rsub :=
+  let (hyph, counts) := inspect_loop d body 0%nat subs 0%nat [] in
   let subs' := if Nat.eqb hyph (List.length counts) then drop_hyphen_subs subs else subs in
   (all_equal counts, subs').
 
@@ -97,10 +97,10 @@ Fixpoint list_rsub_eqb (a b : list rsub) : bool :=
   end.
 
 (* las.py: inspect, accept the recommendation, inspect again *)
-Definition inspect_twice (body : list (list N)) (subs : list rsub) : option nat * list rsub :=
-  let (n, rec) := inspect body subs in
+Definition inspect_twice (d : dlm) (body : list (list N)) (subs : list rsub) : option nat * list rsub :=
+  let (n, rec) := inspect d body subs in
   if negb (list_rsub_eqb rec subs) then
-    let (n2, _) := inspect body rec in (n2, rec)
+    let (n2, _) := inspect d body rec in (n2, rec)
   else (n, subs).
 
 (* ---- normal engine -------------------------------------------------------------------------- *)
